@@ -990,8 +990,11 @@ impl<'a> TxV<'a> {
         let mut names = Vec::new();
         for (p, v) in params.iter().zip(vals) {
             let n = p.args()[0].atom().to_string();
-            fr.types.insert(n.clone(), self.ty(&p.args()[2])?);
-            fr.vals.insert(n.clone(), v.clone());
+            let pt = self.ty(&p.args()[2])?;
+            // HLSL: an `out` parameter is uninitialised on entry
+            let v0 = if dir_of(p.args()[1].atom()) == 1 { self.types.undef(&pt)? } else { v.clone() };
+            fr.types.insert(n.clone(), pt);
+            fr.vals.insert(n.clone(), v0);
             names.push(n);
         }
         let fl = self.exec(&f.args()[3], &mut fr, gl, depth - 1)?;
